@@ -425,12 +425,13 @@ func (e *exec) check(where string) {
 }
 
 type outcome struct {
-	bad      []string
-	led      []string
-	half     []string // known shape c13.half_closed_stream_not_counted
-	classes  map[string]bool
-	setupErr error
-	nCalls   int
+	bad         []string
+	led         []string
+	half        []string // known shape sigHalfClosed
+	neverClosed int      // streams ended by the server that the client never ended nor reset
+	classes     map[string]bool
+	setupErr    error
+	nCalls      int
 }
 
 func runPlan(t *testing.T, p Plan) (out outcome) {
@@ -519,6 +520,13 @@ func runPlan(t *testing.T, p Plan) (out outcome) {
 		out.bad = e.bad
 		out.led = e.led.Violations("stream.id", "stream.maxconcurrent")
 		out.half = e.led.Violations("stream.halfclosed_over_limit")
+		// Streams the server ended and the client never ended nor reset, up to
+		// and including the transport's shutdown.
+		for _, st := range e.led.Streams() {
+			if st.OutEnd && !st.InEnd && !st.InRST && !st.OutRST {
+				out.neverClosed++
+			}
+		}
 		out.nCalls = len(e.calls)
 		if e.parkedEver > 0 {
 			e.class("parked_in_check_then_wait_window")
@@ -537,7 +545,12 @@ func runPlan(t *testing.T, p Plan) (out outcome) {
 	return out
 }
 
-const sigHalfClosed = "c13.half_closed_stream_not_counted"
+// sigHalfClosed is the known finding: the server ended a stream (END_STREAM,
+// no RST_STREAM) while the client's own END_STREAM was still queued behind
+// flow control; the client frees the stream's MAX_CONCURRENT_STREAMS slot but
+// never sends END_STREAM or RST_STREAM, so the stream stays half-closed at
+// the server and still counts there (RFC 7540 5.1.2).
+const sigHalfClosed = "c13.server_ended_stream_not_closed_by_client"
 
 const rule = "plans of <=30/200 ops against a real http2Client and a scripted h2peer server: NewStream calls on their own goroutines (25% with a 1..5000 ms virtual deadline), " +
 	"finishing 1-3 admitted streams in one of 6 ways (client cancel, server RST, half-close + trailers, trailers + RST(NO_ERROR), trailers only, trailers while the client's END_STREAM is flow-control blocked), " +
@@ -569,7 +582,14 @@ func run(t *testing.T, p Plan) vk.Result {
 		// signature (the ledger reports a plain stream.maxconcurrent for any excess
 		// that remains when such streams are not counted).
 		r := vk.Bad("%d violation(s), first: %s", len(out.half), out.half[0]).With(append(cl, "known_half_closed_over_limit")...)
-		r.Sig = sigHalfClosed
+		// The ledger reports this kind only if the excess over the limit consists
+		// entirely of streams that the server ended (END_STREAM, no RST) and the
+		// client had neither ended nor reset when it opened the next stream; the
+		// signature additionally requires that such streams were never closed by
+		// the client later on either.
+		if out.neverClosed > 0 {
+			r.Sig = sigHalfClosed
+		}
 		return r
 	}
 	nt := out.classes["limit_lowered_below_open_with_waiter"] || (out.classes["waiter_blocked_at_limit"] && (out.classes["finish_with_waiter"] || out.classes["raise_with_waiters"]))
